@@ -79,6 +79,7 @@ type LifeSpec struct {
 	IsStrict        bool       `json:"is_strict,omitempty"`
 	EndWithShutdown bool       `json:"end_with_shutdown,omitempty"` // after ops done, if Run() still going: ShutDownProject
 	NoOutEvents     bool       `json:"no_out_events,omitempty"`
+	ViaClient       bool       `json:"via_client,omitempty"` // API requests go through the REST server and the bundled client
 }
 
 func (s *LifeSpec) proc(name string) *PSpec {
@@ -246,6 +247,7 @@ type LifeRun struct {
 	YieldCount map[string]int
 	Settled    bool // every instance goroutine finished before the final snapshot
 	custom     map[string]func(env *sim.Env, lr *LifeRun, op Op) error
+	api        *apiServer
 	Extra      map[string]any
 }
 
@@ -315,6 +317,10 @@ func RunLifeOpts(seed int64, spec *LifeSpec, lo LifeOpts) *LifeRun {
 	lr.Env = env
 	lr.custom = lo.Custom
 	defer env.Cleanup()
+	if spec.ViaClient {
+		lr.api = startAPI(env)
+		defer lr.api.close()
+	}
 	if lo.Setup != nil {
 		lo.Setup(env, lr)
 	}
@@ -529,15 +535,35 @@ func runOps(lr *LifeRun, env *sim.Env, ps *probeServer, spec *LifeSpec) {
 			var err error
 			switch op.Op {
 			case "start":
-				err = env.Call("start", op.Proc, 0, func() error { return env.Runner.StartProcess(op.Proc) })
+				err = env.Call("start", op.Proc, 0, func() error {
+					if lr.api != nil {
+						return lr.api.client.StartProcess(op.Proc)
+					}
+					return env.Runner.StartProcess(op.Proc)
+				})
 			case "stop":
-				err = env.Call("stop", op.Proc, 0, func() error { return env.Runner.StopProcess(op.Proc) })
+				err = env.Call("stop", op.Proc, 0, func() error {
+					if lr.api != nil {
+						return lr.api.client.StopProcess(op.Proc)
+					}
+					return env.Runner.StopProcess(op.Proc)
+				})
 			case "restart":
-				err = env.Call("restart", op.Proc, 0, func() error { return env.Runner.RestartProcess(op.Proc) })
+				err = env.Call("restart", op.Proc, 0, func() error {
+					if lr.api != nil {
+						return lr.api.client.RestartProcess(op.Proc)
+					}
+					return env.Runner.RestartProcess(op.Proc)
+				})
 			case "shutdown":
 				err = env.Call("shutdown", "", 0, func() error { return env.Runner.ShutDownProject() })
 			case "scale":
-				err = env.Call("scale", op.Proc, op.N, func() error { return env.Runner.ScaleProcess(op.Proc, op.N) })
+				err = env.Call("scale", op.Proc, op.N, func() error {
+					if lr.api != nil {
+						return lr.api.client.ScaleProcess(op.Proc, op.N)
+					}
+					return env.Runner.ScaleProcess(op.Proc, op.N)
+				})
 			case "release":
 				if op.N > 0 {
 					w.Release(fmt.Sprintf("exit:%s:%d", op.Proc, op.N))
